@@ -68,6 +68,24 @@ func (w *World) LoadManifest(c cid.Cid, ident int, lo *LoadOpts) (*ipfslog.IPFSL
 }
 
 func (w *World) LoadJSON(j *iface.JSONLog, ident int, lo *LoadOpts) (*ipfslog.IPFSLog, error) {
+	if w.ReuseOptions && w.Codec != "pb" {
+		if w.sharedFetch == nil {
+			// the caller's FetchOptions value was used before, for a small log written with ANOTHER codec
+			w.sharedFetch = &entry.FetchOptions{}
+			other := "link"
+			if w.Codec != "cbor" {
+				other = "cbor"
+			}
+			wp := NewWorld(w.Seed, 1, w.LogID+"-prior", "hash", other)
+			pl := wp.NewLog(0)
+			if _, err := pl.Append(wp.Ctx, []byte("prior-1"), nil); err == nil {
+				_, _ = pl.Append(wp.Ctx, []byte("prior-2"), nil)
+				_, _ = ipfslog.NewFromJSON(wp.Ctx, wp.Store.API(), wp.Idents[0], pl.ToJSONLog(), wp.LogOpts(wp.LogID), w.sharedFetch)
+			}
+		}
+		w.sharedFetch.Length, w.sharedFetch.Concurrency, w.sharedFetch.Timeout = lo.Length, lo.Concurrency, dur(lo.TimeoutMs)
+		return ipfslog.NewFromJSON(w.Ctx, w.Store.API(), w.Idents[ident], j, w.loaderOpts(), w.sharedFetch)
+	}
 	return ipfslog.NewFromJSON(w.Ctx, w.Store.API(), w.Idents[ident], j, w.loaderOpts(),
 		&entry.FetchOptions{Length: lo.Length, Concurrency: lo.Concurrency, Timeout: dur(lo.TimeoutMs)})
 }
